@@ -198,8 +198,8 @@ func init() {
 	hk.Register("C06main", func(ctx *engine.Ctx) {
 		i := 0
 		for _, c := range cases() {
-			if c.History != 10 || c.Pre != 0 {
-				continue
+			if c.History != 10 {
+				continue // (with and without earlier handshakes that fill the history: the replayed one is always within it)
 			}
 			if ctx.Mine(int64(i)) {
 				ctx.RunCase("srv-replay-probe", "E", scenario(c), c, nil)
